@@ -23,7 +23,7 @@ set_option linter.all false
 
 open EPV EPV.Gen EPV.Model EPV.Spec.Riemann EPV.Riem
 
-namespace EPV.C08
+namespace EPV.C08.Riemann
 
 noncomputable section
 
@@ -339,4 +339,4 @@ example : (0 : ℝ) < 1 / 1000 ∧ (0 : ℝ) < 1 / 100 ∧ (0 : ℝ) < 1 ∧ sod
 
 
 end
-end EPV.C08
+end EPV.C08.Riemann
